@@ -322,10 +322,19 @@ ODD_KEYS = ['c"d', "a\\b", "Ã©", "", "a  b", "tab\there", "key: 1", "{", "}", "æ
 
 def gen_value(src, depth=0):
     """abstract value: None | True/False | ["num", text] | ["str", s] | ["list", [...]] | ["ctx", [[key, v]...]]"""
-    kinds = [(5, "str"), (3, "num"), (1, "bool"), (1, "null")]
+    kinds = [(5, "str"), (3, "num"), (1, "bool"), (1, "null"), (1, "range")]
     if depth < 3:
         kinds += [(2, "list"), (2, "ctx")]
     k = src.weighted(kinds)
+    if k == "range":
+        # a value without JSON counterpart (rendered as the JSON string of its text) whose text contains the end points' own quotation marks
+        if src.bool(0.7):
+            a, b = sorted([gen_string(src, 0.3), gen_string(src, 0.3)])
+            a, b = feel_string(a, "raw"), feel_string(b, "raw")
+        else:
+            a, b = sorted([src.int(-50, 50), src.int(-50, 50)])
+            a, b = ("(%d)" % a if a < 0 else str(a)), ("(%d)" % b if b < 0 else str(b))
+        return ["feel", "%s%s..%s%s" % (src.choice("[("), a, b, src.choice("])"))]
     if k == "str":
         return ["str", gen_string(src)]
     if k == "num":
@@ -428,7 +437,10 @@ def gen_echo(src):
 
 
 TEMPORALS = ['date("2021-01-02")', 'time("10:11:12")', 'date and time("2021-01-02T10:11:12Z")', 'duration("P1DT2H")', 'duration("P1Y2M")',
-             '[1..5]', '[date("2021-01-02"), 1]', '{when: time("23:59:59+02:00")}']
+             '[1..5]', '[date("2021-01-02"), 1]', '{when: time("23:59:59+02:00")}',
+             # values without a JSON counterpart whose own text contains quotation marks or backslashes
+             '["a".."k"]', '("A".."C")', '[["a".."z"]]', '{grades: ["A".."F"], points: [0..100]}', '["a\\"b".."c\\\\d"]',
+             '[date("2021-01-02")..date("2021-12-31")]', '(duration("P1D")..duration("P2D")]', '["Ã©".."\\U01F600"]']
 
 
 def echo_corners():
